@@ -11,13 +11,15 @@ open Ural Ural.Py Ural.C19 Ural.HostnameTrieSet
 /-- a piece of a path handed out by `urlsplit` -/
 def PathPiece (s : Str) : Prop := ∀ c ∈ s, c ≠ '/' ∧ c ≠ '?' ∧ c ≠ '#' ∧ isUnsafeUrlChar c = false
 
-/-- what the parser guarantees about the fields of a record -/
+/-- what the parser guarantees about the fields of a record: a playlist id is a non-empty run
+without `&`, `#`, `?`; a user name / channel id is a piece of the path without `&`, stripped of
+white space at both ends; a channel name is a piece of the path without `&` -/
 def Fields : Record → Prop
-  | .video _ (some p) => p ≠ [] ∧ ∀ c ∈ p, c ≠ '&' ∧ c ≠ '#'
+  | .video _ (some p) => p ≠ [] ∧ ∀ c ∈ p, c ≠ '&' ∧ c ≠ '#' ∧ c ≠ '?'
   | .video _ none => True
-  | .user name => PathPiece name
-  | .channel (some cid) _ => PathPiece cid
-  | .channel none (some name) => PathPiece name
+  | .user name => PathPiece name ∧ '&' ∉ name ∧ Stripped name
+  | .channel (some cid) _ => PathPiece cid ∧ '&' ∉ cid ∧ Stripped cid
+  | .channel none (some name) => PathPiece name ∧ '&' ∉ name
   | .channel none none => True
   | .short _ => True
 
@@ -56,7 +58,7 @@ theorem queryList_fields (s : Str) (pl : Option Str) (h : queryList s = pl) (id 
     obtain ⟨h1, h2⟩ := litValueSearch_some _ _ _ _ h
     refine ⟨h1, fun c hc => ?_⟩
     have := h2 c hc
-    simp only [stopsAmpHash, List.mem_cons, List.not_mem_nil, or_false, not_or] at this
+    simp only [stopsAmpHashQm, List.mem_cons, List.not_mem_nil, or_false, not_or] at this
     exact this
 
 /-! ## a path behind a host is empty or starts with `/` -/
@@ -132,6 +134,18 @@ theorem pathPiece_lstrip (x : Str) (cs : List Char) (h : PathPiece x) : PathPiec
   unfold lstripChars at hc
   exact h c (mem_of_mem_dropWhile _ _ _ hc)
 
+theorem pathPiece_cutAmp (x : Str) (h : PathPiece x) : PathPiece (cutAmp x) ∧ '&' ∉ cutAmp x := by
+  unfold cutAmp
+  refine ⟨fun c hc => h c ((List.takeWhile_sublist _).subset hc), fun hm => ?_⟩
+  have := mem_takeWhile_s20 _ _ _ hm
+  simp at this
+
+theorem pathPiece_strip (x : Str) (h : PathPiece x) : PathPiece (strip x) :=
+  fun c hc => h c (mem_of_mem_strip _ _ hc)
+
+theorem not_mem_strip (x : Str) (c : Char) (h : c ∉ x) : c ∉ strip x :=
+  fun hm => h (mem_of_mem_strip _ _ hm)
+
 theorem routeName_fields (path : Str) (r : Record)
     (hp : ∀ c ∈ path, c ≠ '?' ∧ c ≠ '#' ∧ isUnsafeUrlChar c = false)
     (hshape : path = [] ∨ ∃ p, path = '/' :: p) (h : routeName path = some r) : Fields r := by
@@ -141,45 +155,44 @@ theorem routeName_fields (path : Str) (r : Record)
   · rename_i hcount
     split at h
     · simp at h
-    · split at h
-      · simp at h
-      · simp only [Option.some.injEq] at h
-        subst h
-        -- the stripped path is `/` followed by a `/`-free rest
-        have hsub : ∀ c ∈ rstripChars path ['/'], c ∈ path := by
-          intro c hc
-          obtain ⟨suf, hs⟩ := rstripChars_prefix path ['/']
-          rw [hs]; simp [hc]
-        show PathPiece _
-        apply pathPiece_lstrip
+    · simp only [Option.some.injEq] at h
+      subst h
+      -- the stripped path is `/` followed by a `/`-free rest
+      have hsub : ∀ c ∈ rstripChars path ['/'], c ∈ path := by
         intro c hc
-        have hc1 : c ∈ rstripChars path ['/'] := by
-          unfold lstripChars at hc; exact mem_of_mem_dropWhile _ _ _ hc
-        have := hp c (hsub c hc1)
-        refine ⟨?_, this.1, this.2.1, this.2.2⟩
-        intro e
-        subst e
-        -- a `/` in the name: then the stripped path has two
-        rcases hshape with e | ⟨p, e⟩
-        · rw [e] at hcount; simp [rstripChars] at hcount
-        · obtain ⟨suf, hs⟩ := rstripChars_prefix path ['/']
-          cases hr : rstripChars path ['/'] with
-          | nil => rw [hr] at hcount; simp at hcount
-          | cons a as =>
-            rw [hr] at hs hcount hc
-            have ha : a = '/' := by
-              rw [e] at hs
-              simp only [List.cons_append, List.cons.injEq] at hs
-              exact hs.1.symm
-            subst ha
-            rw [List.count_cons_self] at hcount
-            have has : '/' ∉ as := by
-              intro hm
-              have := List.count_pos_iff.mpr hm
-              omega
-            unfold lstripChars at hc
-            rw [List.dropWhile_cons_of_pos (by simp)] at hc
-            exact has (mem_of_mem_dropWhile _ _ _ hc)
+        obtain ⟨suf, hs⟩ := rstripChars_prefix path ['/']
+        rw [hs]; simp [hc]
+      show PathPiece _ ∧ _
+      apply pathPiece_cutAmp
+      apply pathPiece_lstrip
+      intro c hc
+      have hc1 : c ∈ rstripChars path ['/'] := by
+        unfold lstripChars at hc; exact mem_of_mem_dropWhile _ _ _ hc
+      have := hp c (hsub c hc1)
+      refine ⟨?_, this.1, this.2.1, this.2.2⟩
+      intro e
+      subst e
+      -- a `/` in the name: then the stripped path has two
+      rcases hshape with e | ⟨p, e⟩
+      · rw [e] at hcount; simp [rstripChars] at hcount
+      · obtain ⟨suf, hs⟩ := rstripChars_prefix path ['/']
+        cases hr : rstripChars path ['/'] with
+        | nil => rw [hr] at hcount; simp at hcount
+        | cons a as =>
+          rw [hr] at hs hcount hc
+          have ha : a = '/' := by
+            rw [e] at hs
+            simp only [List.cons_append, List.cons.injEq] at hs
+            exact hs.1.symm
+          subst ha
+          rw [List.count_cons_self] at hcount
+          have has : '/' ∉ as := by
+            intro hm
+            have := List.count_pos_iff.mpr hm
+            omega
+          unfold lstripChars at hc
+          rw [List.dropWhile_cons_of_pos (by simp)] at hc
+          exact has (mem_of_mem_dropWhile _ _ _ hc)
   · simp at h
 
 theorem routePath_fields (fix : Bool) (path query : Str) (pl : Option Str) (r : Record)
@@ -215,7 +228,8 @@ theorem routePath_fields (fix : Bool) (path query : Str) (pl : Option Str) (r : 
             · simp at h
             · simp only [Option.some.injEq] at h
               subst h
-              exact pathPiece_of_pathsplit path x hp (second_mem path x hs)
+              have hpp := pathPiece_cutAmp x (pathPiece_of_pathsplit path x hp (second_mem path x hs))
+              exact ⟨pathPiece_strip _ hpp.1, not_mem_strip _ _ hpp.2, strip_stripped _⟩
       · split at h
         · unfold routeC at h
           cases hs : second path with
@@ -230,7 +244,8 @@ theorem routePath_fields (fix : Bool) (path query : Str) (pl : Option Str) (r : 
               · simp at h
               · simp only [Option.some.injEq] at h
                 subst h
-                exact pathPiece_lstrip x _ (pathPiece_of_pathsplit path x hp (second_mem path x hs))
+                exact pathPiece_cutAmp _
+                  (pathPiece_lstrip x _ (pathPiece_of_pathsplit path x hp (second_mem path x hs)))
         · split at h
           · unfold routeChannel at h
             cases hs : second path with
@@ -245,7 +260,8 @@ theorem routePath_fields (fix : Bool) (path query : Str) (pl : Option Str) (r : 
                 · simp at h
                 · simp only [Option.some.injEq] at h
                   subst h
-                  exact pathPiece_of_pathsplit path x hp (second_mem path x hs)
+                  have hpp := pathPiece_cutAmp x (pathPiece_of_pathsplit path x hp (second_mem path x hs))
+                  exact ⟨pathPiece_strip _ hpp.1, not_mem_strip _ _ hpp.2, strip_stripped _⟩
           · split at h
             · unfold routeShorts at h
               cases hs : second path with
